@@ -2093,7 +2093,8 @@ without `missing_values`): for every table the adjacency is the stored `R` witho
 diagonal, `R` is the plot's matrix and the network has as many nodes as `R` has rows.
 PARTIAL: the full statement also covers the `RecurrenceNetwork` constructor with
 `missing_values=True` on an adaptive plot, where the states holding a missing value are deleted
-(`adaptiveObjNet` models it; driver, correspondence and oracle cover it; no theorem yet). -/
+(`adaptiveObjNet` models it; driver, correspondence and oracle cover it).  Round 5d: that case
+is now `adaptive_object_network_spec` below; the two theorems together are the full statement. -/
 theorem adaptive_object_network_spec_partial (m : Metric) (series S emb : List (List V))
     (norm mv setter : Bool) (e : Option (Nat × Nat)) (kA : Nat) (order : Option (List Nat))
     (sn : List (List Nat)) (p : Plot)
@@ -2134,5 +2135,248 @@ example :
       = (3, [[false, true, true], [true, false, true], [true, true, false]],
           [[false, true, true], [true, false, true], [true, true, false]]) := by
   decide +kernel
+
+/-! ## Round 5d: the `RecurrenceNetwork` constructor with `missing_values=True` on an adaptive
+plot — the states holding a missing value are deleted -/
+
+/-- **`np.delete` after the stride, for any square matrix** (the step `network_missing_deleted`
+proves inside the threshold / rate / local-rate constructions, stated once for every stored
+matrix): with `kept` the ordered unmasked states, the deleted adjacency has one node per kept
+state and `A[a,b] = R[kept[a], kept[b]] ∧ kept[a] ≠ kept[b]` -/
+theorem deleted_adjacency_entries (R : List (List Bool)) (M : List Bool) (stride : Int) (n : Nat)
+    (hside : R.length = n) (hrows : ∀ r ∈ R, r.length = n)
+    (hs : stride = (R.length : Int) + 1) :
+    (deleteMasked (adjacencyOf R stride) M).length = (keptIdx M n).length ∧
+    ∀ a b ia ib, (keptIdx M n)[a]? = some ia → (keptIdx M n)[b]? = some ib →
+      entry (deleteMasked (adjacencyOf R stride) M) a b
+        = (entry R ia ib).map fun v => v && decide (ia ≠ ib) := by
+  have hAlen : (adjacencyOf R stride).length = n := by
+    simp [adjacencyOf, zeroStride, hside]
+  have hArow : ∀ r ∈ adjacencyOf R stride, r.length = n := by
+    intro r hr
+    simp only [adjacencyOf, zeroStride, List.mem_map] at hr
+    obtain ⟨⟨row, i⟩, hmem, rfl⟩ := hr
+    have hrow : row ∈ R := (List.mem_zipIdx' hmem).2 ▸ List.getElem_mem _
+    simp only [List.length_map, List.length_zipIdx]
+    exact hrows row hrow
+  rw [deleteMasked_eq (adjacencyOf R stride) M n hAlen hArow]
+  refine ⟨by simp, ?_⟩
+  intro a b ia ib ha hb
+  have hia : ia < n := by
+    have := (List.mem_filter.mp (List.mem_of_getElem? ha)).1
+    simpa using this
+  have hib : ib < n := by
+    have := (List.mem_filter.mp (List.mem_of_getElem? hb)).1
+    simpa using this
+  have hent := network_eq_R_offdiag R stride ia ib hs (by omega) (by omega)
+  have hL : entry ((keptIdx M n).map fun i => (keptIdx M n).map fun j =>
+        ((adjacencyOf R stride).getD i []).getD j false) a b
+      = some (((adjacencyOf R stride).getD ia []).getD ib false) := by
+    simp only [entry, List.getElem?_map, ha, hb, Option.map_some, Option.bind_some]
+  rw [hL]
+  have hget : ∀ (A : List (List Bool)) (v : Bool), entry A ia ib = some v →
+      (A.getD ia []).getD ib false = v := by
+    intro A v hv
+    unfold entry at hv
+    cases h1 : A[ia]? with
+    | none => simp [h1] at hv
+    | some row =>
+      simp only [h1, Option.bind_some] at hv
+      simp [List.getD, h1, hv]
+  cases hR : entry R ia ib with
+  | none =>
+    exfalso
+    unfold entry at hR
+    have h1 : R[ia]? = some (R[ia]'(by omega)) := List.getElem?_eq_getElem (by omega)
+    rw [h1] at hR
+    simp only [Option.bind_some] at hR
+    have hrl : (R[ia]'(by omega)).length = n := hrows _ (List.getElem_mem _)
+    rw [List.getElem?_eq_getElem (by omega)] at hR
+    cases hR
+  | some v =>
+    rw [hR] at hent
+    simp only [Option.map_some] at hent ⊢
+    rw [hget _ _ hent]
+
+/-- the stored matrix of an adaptive plot with `missing_values` is square of side `n` -/
+theorem masked_bmTab_rows (emb : List (List V)) (R : BM) :
+    (maskIf true emb (bmTab emb.length R)).length = emb.length
+    ∧ ∀ r ∈ maskIf true emb (bmTab emb.length R), r.length = emb.length := by
+  refine ⟨by simp [maskIf_length, bmTab, tab_length], ?_⟩
+  intro r hr
+  simp only [maskIf, if_true, applyMask, List.mem_map] at hr
+  obtain ⟨⟨row, i⟩, hmem, rfl⟩ := hr
+  have hrow : row ∈ bmTab emb.length R := (List.mem_zipIdx' hmem).2 ▸ List.getElem_mem _
+  simp only [List.length_map, List.length_zipIdx]
+  exact tab_rows _ _ _ row hrow
+
+/-- the nodes of the network are the complete states: as many as `nComplete`, each a state
+index without a missing value, in increasing order without repetition -/
+theorem kept_complete (emb : List (List V)) :
+    (keptIdx (missingMask emb) emb.length).length = nComplete emb
+    ∧ (keptIdx (missingMask emb) emb.length).Nodup
+    ∧ ∀ c, c ∈ keptIdx (missingMask emb) emb.length ↔ (c < emb.length ∧ missingAt emb c = false) := by
+  refine ⟨?_, ?_, ?_⟩
+  · simp [nComplete, keptIdx, List.countP_eq_length_filter, missingAt]
+  · exact List.Nodup.filter _ List.nodup_range
+  · intro c
+    simp [keptIdx, missingAt]
+
+/-- positions of pairwise different members of a list: pairwise different positions -/
+theorem positions_of_members {α : Type} (kept : List α) (cs : List α) (hnd : cs.Nodup)
+    (hmem : ∀ c ∈ cs, c ∈ kept) :
+    ∃ bs : List Nat, bs.Nodup ∧ bs.length = cs.length
+      ∧ ∀ b ∈ bs, ∃ c ∈ cs, kept[b]? = some c := by
+  induction cs with
+  | nil => exact ⟨[], List.nodup_nil, rfl, by simp⟩
+  | cons c cs ih =>
+    obtain ⟨hc, hnd'⟩ := List.nodup_cons.mp hnd
+    obtain ⟨bs, h1, h2, h3⟩ := ih hnd' (fun x hx => hmem x (List.mem_cons_of_mem _ hx))
+    obtain ⟨b, hb⟩ := List.getElem?_of_mem (hmem c List.mem_cons_self)
+    refine ⟨b :: bs, List.nodup_cons.mpr ⟨?_, h1⟩, by simp [h2], ?_⟩
+    · intro hbb
+      obtain ⟨c', hc', hk⟩ := h3 b hbb
+      rw [hb] at hk
+      injection hk with hk
+      exact hc (hk ▸ hc')
+    · intro x hx
+      rcases List.mem_cons.mp hx with rfl | hx
+      · exact ⟨c, List.mem_cons_self, hb⟩
+      · obtain ⟨c', hc', hk⟩ := h3 x hx
+        exact ⟨c', List.mem_cons_of_mem _ hc', hk⟩
+
+/-- **`RecurrenceNetwork(series, …, missing_values=True, adaptive_neighborhood_size=kA)` — the
+full statement of `adaptive_object_network_spec_partial`** (that theorem covers the setter and
+objects without `missing_values`, where nothing is deleted).  For every argsort table NumPy may
+return for the matrix the constructor sorts (`adaptiveTableOK`), with `kept` the ordered states
+whose vectors are complete:
+* the constructor returns; the stored `R` is the plot's matrix (`adaptiveObjPlot`, full side
+  `n` — the RQA methods of such an object are the known finding C07-rn-missing-values-N);
+* the network has one node per complete state (`N` = `|A|` = `|kept|` = `nComplete`), node `a`
+  is state `kept[a]`, and `A[a,b] = R[kept[a], kept[b]] ∧ kept[a] ≠ kept[b]` — the recurrence
+  matrix without its diagonal, restricted to the complete states;
+* nothing is lost by the deletion: a state holding a missing value is recurrent with nothing
+  in `R` (`adaptive_plot_missing_values`), so every `true` of `R` off the diagonal is a link;
+* the neighbour guarantee on the surviving nodes: for `kA ≤ #complete − 1` the node `a` of
+  every processed complete state has `kA` pairwise different nodes `b`, each of them `a` itself
+  or linked to `a` (`A[a,b] = true`) — hence at least `kA − 1` neighbours, and `kA` as soon as
+  the kernel did not count the state itself. -/
+theorem adaptive_object_network_spec (m : Metric) (series S emb : List (List V)) (norm : Bool)
+    (e : Option (Nat × Nat)) (kA : Nat) (order : Option (List Nat)) (sn : List (List Nat))
+    (hS : storedSeries series norm = some S) (hE : stateVectors S e = .ok emb)
+    (hsn : adaptiveTableOK m series norm true e sn = true)
+    (ho : ∀ o, order = some o → o.length = emb.length ∧ ∀ l ∈ o, l < emb.length) :
+    ∃ (p : Plot) (q : Net),
+      adaptiveObjPlot m series norm true e kA order sn = some (.ok p)
+      ∧ adaptiveObjNet false m series norm true e kA order sn = some (.ok q)
+      ∧ q.R = p.R ∧ p.R.length = emb.length ∧ p.N = emb.length
+      ∧ q.N = (keptIdx (missingMask emb) emb.length).length
+      ∧ q.A.length = (keptIdx (missingMask emb) emb.length).length
+      ∧ (keptIdx (missingMask emb) emb.length).length = nComplete emb
+      ∧ (∀ c, c ∈ keptIdx (missingMask emb) emb.length
+            ↔ (c < emb.length ∧ missingAt emb c = false))
+      ∧ (∀ a b ia ib, (keptIdx (missingMask emb) emb.length)[a]? = some ia →
+          (keptIdx (missingMask emb) emb.length)[b]? = some ib →
+          entry q.A a b = (entry p.R ia ib).map fun v => v && decide (ia ≠ ib))
+      ∧ (∀ i j, entry p.R i j = some true →
+          i ∈ keptIdx (missingMask emb) emb.length ∧ j ∈ keptIdx (missingMask emb) emb.length)
+      ∧ (kA + 1 ≤ nComplete emb → ∀ a l, (keptIdx (missingMask emb) emb.length)[a]? = some l →
+          l ∈ order.getD (List.range emb.length) →
+          ∃ bs : List Nat, bs.Nodup ∧ bs.length = kA ∧ ∀ b ∈ bs,
+            b < (keptIdx (missingMask emb) emb.length).length
+            ∧ (b ≠ a → entry q.A a b = some true)) := by
+  obtain ⟨hP, hT, hN⟩ := adaptive_object_eq m series S emb norm true false e kA order sn hS hE
+  rw [hT] at hsn
+  obtain ⟨R, h1, h2, h3, h4⟩ := adaptive_plot_missing_values m emb kA order sn hsn ho
+  obtain ⟨hside, hrows⟩ := masked_bmTab_rows emb R
+  obtain ⟨hk1, hk2, hk3⟩ := kept_complete emb
+  have hst : ArithC07.rnStride (emb.length : Int)
+      = ((maskIf true emb (bmTab emb.length R)).length : Int) + 1 := by
+    rw [(strides_eq _).1, hside]
+  obtain ⟨hd1, hd2⟩ := deleted_adjacency_entries (maskIf true emb (bmTab emb.length R))
+    (missingMask emb) (ArithC07.rnStride (emb.length : Int)) emb.length hside hrows hst
+  have hin : ∀ i j, entry (maskIf true emb (bmTab emb.length R)) i j = some true →
+      i ∈ keptIdx (missingMask emb) emb.length ∧ j ∈ keptIdx (missingMask emb) emb.length := by
+    intro i j hij
+    have hi : i < emb.length ∧ j < emb.length := by
+      unfold entry at hij
+      cases hr : (maskIf true emb (bmTab emb.length R))[i]? with
+      | none => simp [hr] at hij
+      | some row =>
+        have hil : i < (maskIf true emb (bmTab emb.length R)).length :=
+          (List.getElem?_eq_some_iff.mp hr).1
+        have hrl : row.length = emb.length := hrows row (List.mem_of_getElem? hr)
+        simp only [hr, Option.bind_some] at hij
+        have hjl : j < row.length := (List.getElem?_eq_some_iff.mp hij).1
+        omega
+    have hmi : missingAt emb i = false := by
+      cases hm : missingAt emb i with
+      | false => rfl
+      | true => rcases h3 i j (Or.inl hm) with h | h <;> rw [hij] at h <;> cases h
+    have hmj : missingAt emb j = false := by
+      cases hm : missingAt emb j with
+      | false => rfl
+      | true => rcases h3 i j (Or.inr hm) with h | h <;> rw [hij] at h <;> cases h
+    exact ⟨(hk3 i).mpr ⟨hi.1, hmi⟩, (hk3 j).mpr ⟨hi.2, hmj⟩⟩
+  refine ⟨⟨maskIf true emb (bmTab emb.length R), emb.length, emb.length⟩,
+    adaptiveNetOf false true emb ⟨maskIf true emb (bmTab emb.length R), emb.length, emb.length⟩,
+    by rw [hP, h1], by rw [hN, h1]; rfl, rfl, hside, rfl, ?_, ?_, hk1, hk3, ?_, hin, ?_⟩
+  · simp only [adaptiveNetOf, Bool.not_false, Bool.and_self, if_true, Bool.false_eq_true,
+      if_false]
+    exact_mod_cast hd1
+  · simp only [adaptiveNetOf, Bool.not_false, Bool.and_self, if_true, Bool.false_eq_true,
+      if_false]
+    exact hd1
+  · simp only [adaptiveNetOf, Bool.not_false, Bool.and_self, if_true, Bool.false_eq_true,
+      if_false]
+    exact hd2
+  · intro hk a l ha hl
+    have hlk := (hk3 l).mp (List.mem_of_getElem? ha)
+    obtain ⟨cs, hcs1, hcs2, hcs3⟩ := h4 hk l hl hlk.2
+    obtain ⟨bs, hb1, hb2, hb3⟩ := positions_of_members (keptIdx (missingMask emb) emb.length) cs
+      hcs1 (fun c hc => (hk3 c).mpr ⟨(hcs3 c hc).1, (hcs3 c hc).2.1⟩)
+    refine ⟨bs, hb1, by rw [hb2, hcs2], ?_⟩
+    intro b hb
+    obtain ⟨c, hc, hkc⟩ := hb3 b hb
+    refine ⟨(List.getElem?_eq_some_iff.mp hkc).1, fun hba => ?_⟩
+    have hlc : l ≠ c := by
+      intro hEq
+      subst hEq
+      have hal : a < (keptIdx (missingMask emb) emb.length).length :=
+        (List.getElem?_eq_some_iff.mp ha).1
+      exact hba ((List.getElem?_inj hal hk2).mp (by rw [ha, hkc])).symm
+    simp only [adaptiveNetOf, Bool.not_false, Bool.and_self, if_true, Bool.false_eq_true,
+      if_false]
+    rw [hd2 a b l c ha hkc, (hcs3 c hc).2.2]
+    simp [hlc]
+
+/-- non-vacuity with a deleted state: `RecurrenceNetwork([0, nan, 1, 3], metric="supremum",
+missing_values=True, adaptive_neighborhood_size=1)` (the plot of the example after
+`adaptive_object_plot_spec`): the table passes the driver's test, the NaN state 1 is deleted,
+the three nodes are the states `0, 2, 3`, `R` keeps its side 4 -/
+example :
+    adaptiveTableOK .supremum [[some 0], [none], [some 1], [some 3]] false true none
+        [[0, 2, 3, 1], [0, 1, 2, 3], [2, 0, 3, 1], [3, 2, 0, 1]] = true
+    ∧ keptIdx (missingMask [[some 0], [none], [some 1], [some 3]]) 4 = [0, 2, 3]
+    ∧ nComplete [[some 0], [none], [some 1], [some 3]] = 3
+    ∧ (match adaptiveObjNet false .supremum [[some 0], [none], [some 1], [some 3]] false true none 1
+          none [[0, 2, 3, 1], [0, 1, 2, 3], [2, 0, 3, 1], [3, 2, 0, 1]] with
+        | some (.ok q) => (q.N, q.A, q.R) | _ => (0, [], []))
+      = (3, [[false, true, true], [true, false, true], [true, true, false]],
+         [[false, false, true, true], [false, false, false, false],
+          [true, false, false, true], [true, false, true, false]]) := by
+  refine ⟨?_, by decide +kernel, by decide +kernel, by decide +kernel⟩
+  rw [(adaptive_object_eq .supremum _ _ _ false true false none 1 none _ rfl rfl).2.1]
+  have e : adaptiveDist .supremum [[some 0], [none], [some 1], [some 3]] true
+      = [[some 0, none, some 1, some 3], [none, none, none, none],
+         [some 1, none, some 0, some 2], [some 3, none, some 2, some 0]] := by
+    decide +kernel
+  rw [e]
+  simp only [argsortOK, List.zipWith, List.all, List.length, id, Bool.and_true,
+    Bool.and_eq_true, beq_iff_eq]
+  exact ⟨trivial, isArgsortRow_of _ _ (by decide) (by decide +kernel),
+    isArgsortRow_of _ _ (by decide) (by decide +kernel),
+    isArgsortRow_of _ _ (by decide) (by decide +kernel),
+    isArgsortRow_of _ _ (by decide) (by decide +kernel)⟩
 
 end Pyunicorn.Recurrence
